@@ -191,6 +191,7 @@ func bindMain(args []string) error {
 			}
 			res = append(res, proto.ResultColumn{Name: t.name, Data: t.col})
 		}
+		single := len(res) == 1 && rng.Intn(3) == 0
 		held := make([]string, len(targets)) // data id each target holds
 		for i := range held {
 			held[i] = "empty"
@@ -244,6 +245,10 @@ func bindMain(args []string) error {
 						pan = fmt.Sprint(p)
 					}
 				}()
+				if single {
+					// one target handed over as a Result of its own (ResultColumn implements Result)
+					return blk.DecodeBlock(proto.NewReader(bytes.NewReader(data)), 54460, res[0])
+				}
 				return blk.DecodeBlock(proto.NewReader(bytes.NewReader(data)), 54460, res)
 			}()
 			after := []map[string]any{}
@@ -299,7 +304,7 @@ func bindMain(args []string) error {
 			if bj == nil {
 				bj = []map[string]any{}
 			}
-			ev := map[string]any{"ev": "Bind", "targets": tj, "block": bj, "rows": rows, "err": errStr(derr), "errMentions": mentions, "after": after, "panic": pan,
+			ev := map[string]any{"ev": "Bind", "single": single, "targets": tj, "block": bj, "rows": rows, "err": errStr(derr), "errMentions": mentions, "after": after, "panic": pan,
 				"inferRefused": derr != nil && strings.Contains(derr.Error(), "infer")}
 			tw.Emit(ev)
 			n++
